@@ -18,7 +18,7 @@ func init() {
 		Explanation: "R1 (create): in the ESDTNFTCreate entry point the counter is read from the sender account under ELRONDnonce‖Arguments[0]; the value `read + 1` (one SSA value, constant step 1) is the metadata nonce of the created entry, the value " +
 			"persisted under the same account and key, the returned datum and the log topic; the counter write's success edge cuts every success return. R2 (hand-over, current owner): the counter read from the current holder is the value put in the message " +
 			"(second hex argument, first is the token) and, on the same shard, the value written to the new holder; every success return is cut by the write of constant 0 to the old counter and by the call that removes the create role from the old holder's list; " +
-			"the new holder gets the role. The routine may read the counter more than once and reset it in several branches: a read whose value goes to the new holder or into the message must not be able to follow the reset, the resets (removals) together lie on every successful path at every call level, and with the new holder in the same shard counter write and role addition lie on every successful path. R3 (next owner): the counter is set to the number decoded from Arguments[1] and the create role is added. Does NOT decide: uniqueness over histories (late or duplicated delivery), wrap-around at 2^64.",
+			"the new holder gets the role. The routine may read the counter more than once and reset it in several branches: a read whose value goes to the new holder or into the message must not be able to follow the reset, the resets (removals) together lie on every successful path at every call level, and with the new holder in the same shard counter write and role addition lie on every successful path. R3 (next owner): the counter is set to the number decoded from Arguments[1] and the create role is added. R5: the counter key is written only below ESDTNFTCreate and ESDTNFTCreateRoleTransfer (no other function can lower the record of the highest nonce issued). Does NOT decide: uniqueness over histories (late or duplicated delivery), wrap-around at 2^64.",
 		Trusted: []string{"A-deps", "single-creator discipline of the protocol"},
 		Rules:   []func(*Ctx){c07r1, c07r2, c07r4, c07r5},
 	})
